@@ -53,6 +53,23 @@ class FileDriver(drv.Driver):
         self.core = importlib.import_module("pysnark.zkinterface.backend") if cfg["backend"].startswith("zk") else be
         self.backend_name = rt.backend_name
         self.backend_module = rt.backend.__name__
+        # observe the backend interface: what the library hands over, before the backend stores it
+        self.seen = {"pub": [], "priv": [], "cons": []}
+        tgt = rt.backend
+        o_priv, o_pub, o_con = tgt.privval, tgt.pubval, tgt.add_constraint
+
+        def privval(v):
+            self.seen["priv"].append(v)
+            return o_priv(v)
+
+        def pubval(v):
+            self.seen["pub"].append(v)
+            return o_pub(v)
+
+        def add_constraint(v, w, y):
+            self.seen["cons"].append([dict(v.lc), dict(w.lc), dict(y.lc)])
+            return o_con(v, w, y)
+        tgt.privval, tgt.pubval, tgt.add_constraint = privval, pubval, add_constraint
 
     def step(self, st, nested=False):
         try:
@@ -79,6 +96,20 @@ class FileDriver(drv.Driver):
         core.pubvals.clear()
         core.privvals.clear()
         core.constraints.clear()
+        if hasattr(core, "seen") and hasattr(core.seen, "clear"):
+            pass
+        for k in self.seen:
+            self.seen[k].clear()
+        for attr in dir(core):
+            # backends may keep auxiliary state between add_constraint calls (caches, de-duplication sets): a fresh program
+            # must start from a fresh backend, so every module-level set/dict that is not part of the interface is emptied
+            v = getattr(core, attr)
+            if isinstance(v, (set, dict)) and not attr.startswith("__") and attr not in ("__builtins__",):
+                try:
+                    if isinstance(v, set):
+                        v.clear()
+                except Exception:
+                    pass
         rt.guard = None
         rt._ignore_errors = bool(prog.get("ign"))
         rt.LinComb.ONE = self.ONE0
@@ -111,11 +142,12 @@ class FileDriver(drv.Driver):
         finally:
             os.chdir(cwd)
         p = core.get_modulus()
-        trace = {"p": big(p)["abs"], "pub": [big(v) for v in core.pubvals], "priv": [big(v) for v in core.privvals],
-                 "pubk": [big(int(v) // p)["abs"] if int(v) >= 0 else big((-int(v) + p - 1) // p)["abs"] for v in core.pubvals],
-                 "privk": [big(int(v) // p)["abs"] if int(v) >= 0 else big((-int(v) + p - 1) // p)["abs"] for v in core.privvals],
+        S = self.seen
+        trace = {"p": big(p)["abs"], "pub": [big(v) for v in S["pub"]], "priv": [big(v) for v in S["priv"]],
+                 "pubk": [big(int(v) // p)["abs"] if int(v) >= 0 else big((-int(v) + p - 1) // p)["abs"] for v in S["pub"]],
+                 "privk": [big(int(v) // p)["abs"] if int(v) >= 0 else big((-int(v) + p - 1) // p)["abs"] for v in S["priv"]],
                  "cons": [[[{"w": k, "c": big(c), "k": (big(int(c) // p)["abs"] if int(c) >= 0 else big((-int(c) + p - 1) // p)["abs"])}
-                            for k, c in lc.lc.items()] for lc in con] for con in core.constraints]}
+                            for k, c in lc.items()] for lc in con] for con in S["cons"]]}
         return {"id": prog["id"], "raised": self.raised, "proved": proved, "err": err, "trace": trace, "workdir": workdir,
                 "backend_name": self.backend_name, "backend_module": self.backend_module}
 
